@@ -944,6 +944,14 @@ func c19DecisionTable(p *Prog, r *Report) {
 		for k, v := range vars {
 			val[v] = row&(1<<k) != 0
 		}
+		// combinations no pair of values can produce are not compared: two different constants for
+		// one field, or "equal to the other side" together with different constants on the two sides
+		// (an if/else-if chain and a switch over the same field differ only on such rows)
+		if (val["reqUnix"] && val["reqAnyOS"]) || (val["envLinux"] && val["envMac"]) || (val["envOffline"] && val["envOnline"]) ||
+			(val["sameOS"] && (val["reqUnix"] || val["reqAnyOS"]) && (val["envLinux"] || val["envMac"])) ||
+			(val["sameNet"] && val["reqAnyNet"] && (val["envOffline"] || val["envOnline"])) {
+			continue
+		}
 		var osOK bool
 		if val["reqUnix"] {
 			osOK = val["envLinux"] || val["envMac"]
